@@ -17,7 +17,7 @@ from . import c09
 def ops_table(run, verts, labels, maxlen, maxmult, workers):
     c = core.cfg(constants=dict(Verts=set(verts), Labels=set(labels), Start=0, MaxLen=maxlen,
                                 MaxMult=maxmult, Foreign="z"),
-                 invariants=["EnumerationIsAcceptance", "MultipleLanguage", "MultipleDeterministic",
+                 invariants=["EnumerationIsAcceptance", "EnumerateWordsBound", "MultipleLanguage", "MultipleDeterministic",
                              "RecurrentGreatest", "ShortestPathsSound", "RenameCommutes", "EmitObs"])
     r = run.tlc("fsa/FSAOps.tla", c, name="FSAOps_%dv%dl" % (len(verts), len(labels)), workers=workers,
                 emit_prefix="OBS ")
